@@ -75,7 +75,7 @@ theorem stepUpdate_same (s : ExportState) (e : Key × (Option Nat × Nat)) :
   cases ho : e.2.1 with
   | none =>
     cases hc : s.git e.1 with
-    | none => simp [View.setGitRef, setAt, hc]
+    | none => simp [View.setGitRef, setAt]
     | some c => by_cases hcn : c = e.2.2 <;> simp [hcn, View.setGitRef, setAt, hc]
   | some o =>
     cases hc : s.git e.1 with
@@ -447,16 +447,30 @@ theorem classifyExport_fail (root : Nat) (old new : Target) (r : FailReason)
         | [none], _, h2 => exact absurd rfl h2
         | _ :: _ :: _, _, _ => simp [hasConflict]
 
-/-- a resolved new value against a resolved record: the diff asks for exactly the needed write -/
-theorem classifyExport_resolved (root : Nat) (g x : Option Nat) (hne : x ≠ g) (hroot : ofOpt x ≠ normal root) :
-    classifyExport root (ofOpt g) (ofOpt x) =
-      match x with
-      | some c => .update g c
-      | none => (match g with | some o => .delete o | none => .skip) := by
-  unfold classifyExport
-  have h1 : ofOpt x ≠ ofOpt g := fun h => hne (by simpa [ofOpt] using h)
-  rw [if_neg h1, if_neg hroot]
-  cases g <;> cases x <;> simp_all [ofOpt]
+/-- a resolved new value `x` against a record that agrees with Git's value `g`: the diff never
+refuses, and whatever write it asks for succeeds and leaves Git and the record at `x` -/
+theorem resolved_export_outcome (root : Nat) (k : Key) (g x : Option Nat) (hroot : ofOpt x ≠ normal root) :
+    (∀ r, classifyExport root (ofOpt g) (ofOpt x) ≠ .fail r) ∧
+    (∀ o, classifyExport root (ofOpt g) (ofOpt x) = .delete o →
+      (delRes g o).1 = none ∧ fDel (k, o) (g, ofOpt g) = (x, ofOpt x)) ∧
+    (∀ old c, classifyExport root (ofOpt g) (ofOpt x) = .update old c →
+      (updRes g old c).1 = none ∧ fUpd (k, (old, c)) (g, ofOpt g) = (x, ofOpt x)) ∧
+    (classifyExport root (ofOpt g) (ofOpt x) = .skip → x = g) := by
+  cases g with
+  | none =>
+    cases x with
+    | none => simp [classifyExport, ofOpt]
+    | some c =>
+      have hr : ¬ c = root := fun h => hroot (by simp [ofOpt, normal, h])
+      simp [classifyExport, ofOpt, normal, hr, updRes, fUpd]
+  | some o =>
+    cases x with
+    | none => simp [classifyExport, ofOpt, normal, delRes, fDel, absent]
+    | some c =>
+      have hr : ¬ c = root := fun h => hroot (by simp [ofOpt, normal, h])
+      by_cases hco : c = o
+      · simp [classifyExport, ofOpt, hco]
+      · simp [classifyExport, ofOpt, normal, hr, hco, updRes, fUpd]
 
 /-- a conflicted new value is never written -/
 theorem classifyExport_conflicted (root : Nat) (g : Option Nat) (new : Target) (h : hasConflict new = true) :
